@@ -130,7 +130,7 @@ PROPS = {
                  "distinct_nontrivial = distinct (site kind, key class) pairs in which the fault fired, plus the torn-file case; fidelity part is input sampling"),
         "real_vs_stub": "real: BasicExport/BasicImport, document creation, relations, badger in-memory under SimStore, the real file system for the export file (scratch directory under /verif/work); stub: storage faults at the corekv seam, torn file = truncated copy, restart = log replay",
         "assumptions": ASSUME_COMMON,
-        "probes": ["imports_checked_for_fidelity", "updates_before_export", "self_references", "torn_files", "fault_read_error", "fault_write_error", "fault_disk_full", "fault_iterator_error", "fault_commit_error", "fault_commit_conflict"],
+        "probes": ["imports_checked_for_fidelity", "updates_before_export", "self_references", "two_self_references", "reference_cycles", "documents_with_equal_content", "torn_files", "fault_read_error", "fault_write_error", "fault_disk_full", "fault_iterator_error", "fault_commit_error", "fault_commit_conflict"],
         "quick": {"count": 3, "budget_s": 70, "workers": 16},
         "thorough": {"count": 100000, "budget_s": 1500, "workers": 16},
         "text": "Atomicity and crash clauses are decided by fault enumeration (per import: every storage site, complete in the thorough tier; torn files at sampled positions): a failed import leaves the target exactly as before, a reported success equals the complete import. Fidelity (values of every kind, relations under the recorded id mapping, re-export equivalence, survival of a restart) is asserted on every successful import over sampled data sets.",
